@@ -132,19 +132,25 @@ func eval(env *EvalEnv, fn *Func, top, intTop int) CallResult {
 		case opCall:
 			id := decode16(code, pc+1)
 			fn := env.userFuncs[id]
-			result := eval(env, fn, len(stack.objects)-fn.numObjectParams, len(stack.ints)-fn.numIntParams)
+			objTop, intTop := len(stack.objects)-fn.numObjectParams, len(stack.ints)-fn.numIntParams
+			result := eval(env, fn, objTop, intTop)
+			stack.objects, stack.ints = stack.objects[:objTop], stack.ints[:intTop]
 			stack.Push(result.Value())
 			pc += 3
 		case opIntCall:
 			id := decode16(code, pc+1)
 			fn := env.userFuncs[id]
-			result := eval(env, fn, len(stack.objects)-fn.numObjectParams, len(stack.ints)-fn.numIntParams)
+			objTop, intTop := len(stack.objects)-fn.numObjectParams, len(stack.ints)-fn.numIntParams
+			result := eval(env, fn, objTop, intTop)
+			stack.objects, stack.ints = stack.objects[:objTop], stack.ints[:intTop]
 			stack.PushInt(result.IntValue())
 			pc += 3
 		case opVoidCall:
 			id := decode16(code, pc+1)
 			fn := env.userFuncs[id]
-			eval(env, fn, len(stack.objects)-fn.numObjectParams, len(stack.ints)-fn.numIntParams)
+			objTop, intTop := len(stack.objects)-fn.numObjectParams, len(stack.ints)-fn.numIntParams
+			eval(env, fn, objTop, intTop)
+			stack.objects, stack.ints = stack.objects[:objTop], stack.ints[:intTop]
 			pc += 3
 
 		case opJump:
